@@ -939,7 +939,7 @@ fn birthday_pairs(per_hash: usize) -> Vec<(String, String)> {
 fn adversarial_pairs(thorough: bool) -> Vec<Vec<(String, String)>> {
     let mut groups: Vec<Vec<(String, String)>> = vec![];
     // (a) Thue–Morse words of length 2^k, k = 1..11, against their letter-swapped twin — several alphabets (letter distance 1, 25, 32, 13; digits; a blank)
-    let alphabets: &[(char, char)] = if thorough { &[('a', 'b'), ('0', '1'), ('A', 'a'), ('a', 'z'), ('x', '-'), ('N', 'A'), ('a', ' '), ('b', 'a')] } else { &[('a', 'b'), ('0', '1'), ('A', 'a'), ('x', '-')] };
+    let alphabets: &[(char, char)] = if thorough { &[('a', 'b'), ('0', '1'), ('A', 'a'), ('a', 'z'), ('x', '-'), ('N', 'A'), ('a', ' '), ('b', 'a')] } else { &[('a', 'b'), ('0', '1'), ('A', 'a')] };
     for (ai, &(x, y)) in alphabets.iter().enumerate() {
         let kmax = if thorough || ai == 0 { 11 } else { 10 };
         groups.push((1..=kmax).map(|k| (tm(k, x, y), tm(k, y, x))).collect());
@@ -953,6 +953,7 @@ fn adversarial_pairs(thorough: bool) -> Vec<Vec<(String, String)>> {
     for kind in 0..3usize {
         let mut g = vec![];
         for (li, &l) in lens.iter().enumerate() {
+            if !thorough && kind == 1 && l > 256 { continue }
             let base: String = match kind { 0 => letters(l as u64, l), 1 => "ab".repeat(l / 2 + 1)[..l].to_string(), _ => "a".repeat(l) };
             let all = [0usize, 1, l / 2, l - 9, l - 2, l - 1];
             let pos: Vec<usize> = if thorough { all.to_vec() } else { vec![all[(li + kind) % 2], all[2 + (li + kind) % 2], all[4 + (li + kind + 1) % 2]] };
@@ -1002,9 +1003,9 @@ const CMP_NAMES: &[&str] = &["==", "!=", ">", "<", ">=", "<=", "GREATER", "less_
 fn robust3(thorough: bool, out: &mut dyn FnMut(String), late: &mut Vec<String>) {
     // ---- (13a) substring operations against look-alikes: count / find / rfind / index / rindex / partition / rpartition / starts_with / ends_with /
     //      split / rsplit / replace (and equality, should it ever go through a fingerprint) — every operation sees every kind of pair in every surrounding;
-    //      quick tier: the Thue–Morse and one-position groups in full, of every second anagram / birthday group a rotating third of (operation, surrounding)
+    //      quick tier: the Thue–Morse and one-position groups in full; of the reversed a/b group and of every second anagram / birthday group a rotating third of (operation, surrounding)
     for (gi, g) in adversarial_pairs(thorough).iter().enumerate() {
-        let full = thorough || gi < 9 || gi % 2 == 0;
+        let full = thorough || (gi != 1 && gi < 9) || (gi > 1 && gi % 2 == 0);
         let n = g.len();
         let shape: Vec<usize> = if n % 2 == 0 && n >= 4 && gi % 2 == 1 { vec![2, n / 2] } else { vec![n] };
         let b = warr(&shape, |i| hex(&g[i].0));
@@ -1028,6 +1029,17 @@ fn robust3(thorough: bool, out: &mut dyn FnMut(String), late: &mut Vec<String>) 
             for (j, op) in SUB2_OPS.iter().take(9).enumerate() { if full || j % 2 == gi % 2 { out(format!("{op} {whole} 1:{}", hex(&last.1))); out(format!("{op} {} {}", warr(&shape, |i| hex(&g[i].1)), b)); } }
         }
     }
+    // ---- (8 for comparisons) EVERY stem length 0..130 (word-wise / blocked comparisons with a scalar tail): a shorter-but-greater ending, a one-byte
+    //      difference right after the stem, one the prefix of the other, a difference hidden behind trailing blanks
+    for kind in 0..2usize {
+        let stem = |s: usize| -> String { if kind == 0 { letters(4242, 130)[..s].to_string() } else { "a".repeat(s) } };
+        for (pi, (x, y)) in [("b", "ab"), ("a", "b"), ("", "a"), ("ab  ", "ab c"), ("a ", "a"), ("b", "b")].into_iter().enumerate() {
+            if !thorough && pi >= 4 { continue }
+            let (a, b) = (warr(&[131], |s| hex(&format!("{}{x}", stem(s)))), warr(&[131], |s| hex(&format!("{}{y}", stem(s)))));
+            for (j, op) in CMP_OPS.iter().enumerate() { out(format!("{op} {a} {b}")); if thorough || j % 4 == kind + 2 * (pi % 2) { out(format!("{op} {b} {a}")); } }
+            out(format!("compare {a} {b} {}", hex(CMP_NAMES[(kind * 3 + x.len() + y.len()) % CMP_NAMES.len()])));
+        }
+    }
     // ---- (13b) long common stems (31 … 2048 bytes) before the first difference: the six comparisons (and compare by name), starts_with / ends_with;
     //      every ordered pair of endings — differing in the byte right after the stem, one the prefix of the other, a shorter one that is greater,
     //      trailing blanks — as `stem + ending`, as `stem + ending + common tail`, and mirrored (`ending + stem`: a long common SUFFIX)
@@ -1038,14 +1050,14 @@ fn robust3(thorough: bool, out: &mut dyn FnMut(String), late: &mut Vec<String>) 
                 if !thorough && sl >= 256 && kind != 0 && kind != 3 { continue }     // quick: long stems with random letters / blanks inside only
                 let stem: String = match kind { 0 => letters(77 + sl as u64, sl), 1 => "a".repeat(sl), 2 => "ab".repeat(sl / 2 + 1)[..sl].to_string(),
                     _ => { let mut s = letters(78 + sl as u64, sl).into_bytes(); for i in (3..sl.saturating_sub(1)).step_by(7) { s[i] = b' '; } String::from_utf8(s).unwrap() } };
-                let ends: &[&str] = if sl >= 256 && !thorough { &["", "b", "ab", "b ", "ac"] } else { &["", "a", "b", "ab", "b ", "ba", "aab", "a  ", "B"] };
+                let ends: &[&str] = if sl >= (if thorough { 1000 } else { 256 }) { &["", "b", "ab", "b ", "ac"] } else { &["", "a", "b", "ab", "b ", "ba", "aab", "a  ", "B"] };
                 let (mut l, mut r) = (vec![], vec![]);
                 for x in ends { for y in ends { l.push(*x); r.push(*y); } }
                 let m = l.len();
                 let shape: Vec<usize> = if m == 25 { vec![5, 5] } else if m == 81 && kind % 2 == 0 { vec![9, 9] } else { vec![m] };
                 let layouts: Vec<Box<dyn Fn(&str) -> String + '_>> = vec![Box::new(|e| format!("{stem}{e}")), Box::new(|e| format!("{stem}{e}{}", &stem[..stem.len().min(40)])), Box::new(|e| format!("{e}{stem}"))];
                 for (li, lay) in layouts.iter().enumerate() {
-                    if !thorough && sl >= 256 && li == 1 && kind != 0 { continue }
+                    if !thorough && li >= 1 && (if sl >= 256 { li == 1 && kind != 0 } else { kind == 1 || kind == 2 }) { continue }
                     let (a, b) = (warr(&shape, |k| hex(&lay(l[k]))), warr(&shape, |k| hex(&lay(r[k]))));
                     for (j, op) in CMP_OPS.iter().enumerate() { if thorough || sl < 256 || li == 0 || (j + si + kind) % 2 == 0 { out(format!("{op} {a} {b}")); } }
                     out(format!("compare {a} {b} {}", hex(CMP_NAMES[(si + kind + li) % CMP_NAMES.len()])));
